@@ -1,6 +1,6 @@
 /-
 C02 / C08 — attribution at loop level: a command line spelt with exact long names - `--name=value`,
-`--flag` - is processed as exactly one occurrence per token, in order, each carrying exactly the
+`--flag`, also by alias or unambiguous prefix - is processed as exactly one occurrence per token, in order, each carrying exactly the
 bytes after the `=`.
 -/
 import ClapProofs.C08
@@ -8,7 +8,8 @@ import ClapProofs.C01Loop
 namespace Clap.C02
 open Clap Parser Bytes
 
-/-- an occurrence written with its exact long name: `--name=value` or (for a flag) `--name` -/
+/-- an occurrence written with a long name - the canonical one, an alias, or (under `infer_long_args`) an unambiguous
+prefix: `--name=value` or (for a flag) `--name` -/
 structure LOcc where
   name : Bytes
   value : Option Bytes
@@ -21,13 +22,13 @@ def LOcc.spell (o : LOcc) : Bytes :=
 /-- what the occurrence means: the arg the name is a key of, with the attached value if the arg takes values -/
 def LOcc.ok (c : Cmd) (o : LOcc) : Prop :=
   Bytes.eq ∉ o.name ∧ o.name ≠ [] ∧ Utf8.valid o.name = true ∧
-  ∃ a, c.getLong o.name = some a ∧ a.takesValue = o.value.isSome
+  ∃ a, findLong c o.name = some a ∧ a.takesValue = o.value.isSome
 
 /-- the abstract run: one `react` per occurrence, in order, stopping at the first error -/
 def runOccs (c : Cmd) : List LOcc → P → R LoopEnd
   | [], p => (p, .ok .done)
   | o :: rest, p =>
-    match c.getLong o.name with
+    match findLong c o.name with
     | none => (p, .error .unknownArgument)
     | some a =>
       match react c (some .long) .cmdline a o.value.toList none p with
@@ -49,7 +50,7 @@ theorem spell_not_escape (o : LOcc) (hne : o.name ≠ []) : ParsedArg.isEscape o
 `react` on the named arg with exactly the attached bytes, then goes on with the rest -/
 theorem loop_long_step (c : Cmd) (similar : Bytes → Bytes → Bool) (hsubs : c.subs = []) (o : LOcc) (a : Arg)
     (hname : Bytes.eq ∉ o.name) (hne : o.name ≠ []) (hutf : Utf8.valid o.name = true)
-    (hget : c.getLong o.name = some a) (htv : a.takesValue = o.value.isSome)
+    (hget : findLong c o.name = some a) (htv : a.takesValue = o.value.isSome)
     (ls : LoopSt) (rest : List Bytes) (p : P) (htr : ls.trailing = false) (hst : ls.st = .valuesDone) :
     loop c similar ls (o.spell :: rest) p =
       match react c (some .long) .cmdline a o.value.toList none p with
@@ -57,7 +58,7 @@ theorem loop_long_step (c : Cmd) (similar : Bytes → Bytes → Bool) (hsubs : c
       | (p1, .ok _) => loop c similar { ls with validArgFound := true } rest p1 := by
   have hsc := possibleSubcommand_none_of_no_subs c hsubs o.spell ls.validArgFound
   have hesc := spell_not_escape o hne
-  have hfl : findLong c o.name = some a := C08.exact_wins c o.name a hget
+  have hfl : findLong c o.name = some a := hget
   rw [loop]
   simp only [htr, Bool.false_eq_true, ↓reduceIte, hst, hsc, hesc, BEq.rfl, Bool.or_true]
   cases hv : o.value with
@@ -150,7 +151,7 @@ def SOcc.spell (o : SOcc) : List Bytes :=
 values that do not look like a flag -/
 def SOcc.ok (c : Cmd) (o : SOcc) : Prop :=
   o.toL.ok c ∧
-  (o.sep = true → ∀ v, o.value = some v → ∀ a, c.getLong o.name = some a →
+  (o.sep = true → ∀ v, o.value = some v → ∀ a, findLong c o.name = some a →
     Bytes.startsWith v [dash] = false ∧ a.getNumArgs = Range.single ∧ a.requireEquals = false ∧ a.terminator = none)
 
 /-- what the caller of the loop sees: `Parser::parse`'s next step resolves whatever is still pending -/
@@ -233,7 +234,7 @@ theorem loop_value_step (c : Cmd) (similar : Bytes → Bytes → Bool) (hsubs : 
 (after resolving what was pending before) and return to the ground state -/
 theorem loop_sep_step (c : Cmd) (wf : C01.WF c) (similar : Bytes → Bytes → Bool) (hsubs : c.subs = []) (name v : Bytes)
     (a : Arg) (hname : Bytes.eq ∉ name) (hne : name ≠ []) (hutf : Utf8.valid name = true)
-    (hget : c.getLong name = some a) (htv : a.takesValue = true)
+    (hget : findLong c name = some a) (htv : a.takesValue = true)
     (hv : Bytes.startsWith v [dash] = false) (hnum : a.getNumArgs = Range.single) (hreq : a.requireEquals = false)
     (hterm : a.terminator = none)
     (ls : LoopSt) (rest : List Bytes) (p : P) (htr : ls.trailing = false) (hst : ls.st = .valuesDone) :
@@ -244,7 +245,7 @@ theorem loop_sep_step (c : Cmd) (wf : C01.WF c) (similar : Bytes → Bytes → B
         loop c similar { ls with validArgFound := true } rest
           { q with pending := some { id := a.id, ident := some .long, rawVals := [v], trailingIdx := none } } := by
   have hsc : ∀ tok vaf, possibleSubcommand c tok vaf = none := possibleSubcommand_none_of_no_subs c hsubs
-  have hfl : findLong c name = some a := C08.exact_wins c name a hget
+  have hfl : findLong c name = some a := hget
   obtain ⟨hfind, _⟩ := C01.findLong_spec wf hfl
   have htl : ParsedArg.toLong (dash :: dash :: name) = some (name, Utf8.valid name, none) :=
     C08.toLong_separate name hname hne
@@ -300,7 +301,7 @@ theorem loop_spellings (c : Cmd) (wf : C01.WF c) (similar : Bytes → Bytes → 
     obtain ⟨⟨hname, hne, hutf, a, hget, htv⟩, hsep⟩ := hok o List.mem_cons_self
     simp only [SOcc.toL] at hname hne hutf hget htv
     have hok' : ∀ o' ∈ rest, o'.ok c := fun o' ho' => hok o' (List.mem_cons_of_mem _ ho')
-    have hfl : findLong c o.name = some a := C08.exact_wins c o.name a hget
+    have hfl : findLong c o.name = some a := hget
     obtain ⟨hfind, _⟩ := C01.findLong_spec wf hfl
     rw [List.flatMap_cons, List.map_cons]
     -- what both sides do once the pending arg is resolved to `q` and the occurrence has reacted
@@ -410,10 +411,40 @@ example :
     simp [SOcc.toL] at hv ha
     subst hv
     have : a = { id := [111], long := some [111] } := by
-      simpa [Cmd.getLong, Cmd.getKey, Cmd.args, Arg.keys] using ha.symm
+      simpa [findLong, Cmd.getLong, Cmd.getKey, Cmd.args, Arg.keys] using ha.symm
     subst this
     decide
   · intro h; cases h
   · intro h; cases h
+
+theorem runOccs_congr (c : Cmd) : ∀ (l l' : List LOcc),
+    l.map (fun o => (findLong c o.name, o.value)) = l'.map (fun o => (findLong c o.name, o.value)) →
+    ∀ p, runOccs c l p = runOccs c l' p
+  | [], [], _, _ => rfl
+  | [], _ :: _, h, _ => by simp at h
+  | _ :: _, [], h, _ => by simp at h
+  | o :: l, o' :: l', h, p => by
+    simp only [List.map_cons, List.cons.injEq, Prod.mk.injEq] at h
+    obtain ⟨⟨h1, h2⟩, h3⟩ := h
+    unfold runOccs
+    rw [h1, h2]
+    split
+    · rfl
+    · split
+      · rfl
+      · exact runOccs_congr c l l' h3 _
+
+/-- **any long spelling of the same occurrences** - canonical name, alias, unambiguous prefix (with
+`infer_long_args`), value attached or separate, in any mixture - is observed identically (C08, whole command lines) -/
+theorem long_spellings_equivalent (c : Cmd) (wf : C01.WF c) (similar : Bytes → Bytes → Bool) (hsubs : c.subs = [])
+    (occs occs' : List SOcc) (hok : ∀ o ∈ occs, o.ok c) (hok' : ∀ o ∈ occs', o.ok c)
+    (hsame : occs.map (fun o => (findLong c o.name, o.value)) = occs'.map (fun o => (findLong c o.name, o.value)))
+    (ls : LoopSt) (p : P) (htr : ls.trailing = false) (hst : ls.st = .valuesDone) :
+    obs c (loop c similar ls (occs.flatMap SOcc.spell) p) = obs c (loop c similar ls (occs'.flatMap SOcc.spell) p) := by
+  rw [loop_spellings c wf similar hsubs occs hok ls p htr hst, loop_spellings c wf similar hsubs occs' hok' ls p htr hst]
+  have : ∀ q, runOccs c (occs.map SOcc.toL) q = runOccs c (occs'.map SOcc.toL) q :=
+    runOccs_congr c _ _ (by simpa [List.map_map, SOcc.toL, Function.comp_def] using hsame)
+  cases resolvePending c p with
+  | mk q r => cases r <;> simp [this]
 
 end Clap.C02
